@@ -19,14 +19,20 @@ Rec == ndJsonDeserialize(IOEnv.TRACE)
 
 VARIABLES l, S, hist, dead, lfd, kfd, nbad, nsteps,
           rx,        \* C07 (relational): per client, the state of a streaming reader of every byte it received
-          supplied   \* C07 (relational): per client, the tags of its requests in the order the application answered them
-vars == <<l, S, hist, dead, lfd, kfd, nbad, nsteps, rx, supplied>>
-RxSame == UNCHANGED <<rx, supplied>>
+          supplied,  \* C07 (relational): per client, the tags of its requests in the order the application answered them
+          \* C07 (relational, ServerAbs on the log alone -- keeps judging after the detailed model has diverged):
+          bk,        \* clients waiting to be accepted, in connect order
+          fdc,       \* descriptor number -> client whose connection the server accepted there (0: none)
+          tok        \* requests yielded and not yet answered: [c, tag, fd]
+vars == <<l, S, hist, dead, lfd, kfd, nbad, nsteps, rx, supplied, bk, fdc, tok>>
+AbsSame == UNCHANGED <<bk, fdc, tok>>
+RxSame == UNCHANGED <<rx, supplied>> /\ AbsSame
 RxInit == [hdr |-> <<>>, need |-> 0, tagbuf |-> <<>>, tags |-> <<>>, bad |-> FALSE]
 
 Init == /\ l = 1 /\ S = InitState(<<0>>, FALSE) /\ hist = 0 /\ dead = TRUE
         /\ lfd = 0 /\ kfd = 0 /\ nbad = 0 /\ nsteps = 0
         /\ rx = [c \in Clients |-> RxInit] /\ supplied = [c \in Clients |-> <<>>]
+        /\ bk = <<>> /\ fdc = [f \in Fds |-> 0] /\ tok = {}
 
 Ev(e) == l <= Len(Rec) /\ Rec[l].e = e /\ l' = l + 1
 
@@ -62,6 +68,7 @@ TReset == /\ Ev("reset")
           /\ hist' = Rec[l].hist /\ dead' = FALSE /\ lfd' = Rec[l].lfd /\ kfd' = Rec[l].kfd
           /\ nsteps' = 0 /\ UNCHANGED nbad
           /\ rx' = [c \in Clients |-> RxInit] /\ supplied' = [c \in Clients |-> <<>>]
+          /\ bk' = <<>> /\ fdc' = [f \in Fds |-> 0] /\ tok' = {}
 
 (***************************************************************************)
 (* C07 judged on the implementation's own logs, independently of the model *)
@@ -110,7 +117,7 @@ OwnBad(c) ==
     ELSE IF \E i \in 1..Len(tags) : OwnerDigits(tags[i]) # DigitsAscii(NatDigits(c)) THEN "own:foreign-response"
     ELSE IF ~IsSubseq(tags, supplied[c]) THEN "own:duplicated-or-reordered"
     ELSE ""
-TEndHist == /\ Ev("endhist") /\ UNCHANGED <<S, hist, lfd, kfd, nsteps, rx, supplied, dead>>
+TEndHist == /\ Ev("endhist") /\ UNCHANGED <<S, hist, lfd, kfd, nsteps, rx, supplied, dead>> /\ AbsSame
             /\ LET badc == {c \in Clients : OwnBad(c) # ""} IN
                IF badc = {} THEN UNCHANGED nbad
                ELSE /\ nbad' = nbad + 1
@@ -118,7 +125,8 @@ TEndHist == /\ Ev("endhist") /\ UNCHANGED <<S, hist, lfd, kfd, nsteps, rx, suppl
                        PrintT("MISMATCH " \o ToJson([l |-> l, hist |-> hist, step |-> nsteps, kind |-> OwnBad(c),
                                                      detail |-> [c |-> c, supplied |-> supplied[c]]]))
 
-TConnect == /\ Ev("connect") /\ Common /\ RxSame
+TConnect == /\ Ev("connect") /\ Common /\ UNCHANGED <<rx, supplied, fdc, tok>>
+            /\ bk' = IF Rec[l].res = "ok" THEN Append(bk, Rec[l].c) ELSE bk
             /\ LET ev == Rec[l] IN
                Step(ev, IF ev.res # "ok" THEN "harness:connect-failed" ELSE "", CConnect(S, ev.c))
 
@@ -126,7 +134,7 @@ TSend == /\ Ev("send") /\ Common /\ RxSame
          /\ LET ev == Rec[l] IN Step(ev, "", CSendFds(S, ev.c, ev.bytes, ev.fds))
 
 TRecv == /\ Ev("recv") /\ Common
-         /\ rx' = [rx EXCEPT ![Rec[l].c] = RxFeed(@, Rec[l].bytes)] /\ UNCHANGED supplied
+         /\ rx' = [rx EXCEPT ![Rec[l].c] = RxFeed(@, Rec[l].bytes)] /\ UNCHANGED supplied /\ AbsSame
          /\ LET ev == Rec[l]
                 c == ev.c
                 have == S.s2c[c]
@@ -152,7 +160,8 @@ TSetLimit == /\ Ev("setlimit") /\ Common /\ RxSame /\ Step(Rec[l], "", SetLimit(
 
 TRespond ==
     /\ Ev("respond") /\ Common
-    /\ supplied' = [supplied EXCEPT ![Rec[l].c] = Append(@, Rec[l].tag)] /\ UNCHANGED rx
+    /\ supplied' = [supplied EXCEPT ![Rec[l].c] = Append(@, Rec[l].tag)] /\ UNCHANGED <<rx, bk, fdc>>
+    /\ tok' = {t \in tok : ~(t.c = Rec[l].c /\ t.tag = Rec[l].tag)}
     /\ LET ev == Rec[l]
            toks == {t \in S.outst : t.owner = ev.c /\ t.tag = ev.tag}
        IN IF toks = {} THEN Step(ev, "token:unknown", S)
@@ -171,7 +180,8 @@ TRespondMany ==
     /\ Ev("respond_many") /\ Common
     /\ LET its == Rec[l].items IN
        supplied' = [c \in Clients |-> supplied[c] \o [i \in 1..Len(SelectSeq(its, LAMBDA x : x.c = c)) |-> SelectSeq(its, LAMBDA x : x.c = c)[i].tag]]
-    /\ UNCHANGED rx
+    /\ UNCHANGED <<rx, bk, fdc>>
+    /\ tok' = {t \in tok : ~(\E i \in 1..Len(Rec[l].items) : t.c = Rec[l].items[i].c /\ t.tag = Rec[l].items[i].tag)}
     /\ LET ev == Rec[l]
            r == RespondAll(S, ev.items)
        IN Step(ev, IF r.bad # "" THEN r.bad ELSE IF ev.res # "ok" THEN "apierr:respond" ELSE "", r.S)
@@ -255,8 +265,37 @@ RunBatch(SS, b, hk, i) ==
        ELSE IF ~h.closed /\ k = 0 THEN Res(SS, "", "write:zero", hk)
        ELSE RunBatch(SrvWrite(SS, f, k).S, Tail(b), Tail(hk), i + 1)
 
+(***************************************************************************)
+(* ServerAbs on the log alone (C07): accept hooks bind descriptor numbers  *)
+(* to clients in connect order, yielded requests become tokens naming the  *)
+(* number their connection has, remove hooks drop numbers.  A number that  *)
+(* is dropped while a token still names it is the premise of every         *)
+(* mis-delivery (TokenOK of ServerAbs); it is reported whatever the        *)
+(* detailed model thinks of the history so far.                            *)
+(***************************************************************************)
+RECURSIVE AbsHooks(_, _, _)
+AbsHooks(hs, q, m) ==       \* [bk, fdc] after the accept / refuse hooks of one call
+    IF hs = <<>> THEN [bk |-> q, fdc |-> m]
+    ELSE LET h == Head(hs) IN
+         IF h.h = "refuse" /\ q # <<>> THEN AbsHooks(Tail(hs), Tail(q), m)
+         ELSE IF h.h = "accept" /\ q # <<>> /\ h.fd \in Fds THEN AbsHooks(Tail(hs), Tail(q), [m EXCEPT ![h.fd] = Head(q)])
+         ELSE AbsHooks(Tail(hs), q, m)
+AbsPoll(ev, yielded) ==
+    LET a == AbsHooks(ev.hooks, bk, fdc)
+        FdOf(c) == LET fs == {f \in Fds : a.fdc[f] = c} IN IF fs = {} THEN 0 ELSE CHOOSE f \in fs : TRUE
+        newt == {[c |-> yielded[i].c, tag |-> yielded[i].tag, fd |-> FdOf(yielded[i].c)] : i \in 1..Len(yielded)}
+        removed == {ev.hooks[i].fd : i \in {j \in 1..Len(ev.hooks) : ev.hooks[j].h = "remove"}}
+        allt == tok \cup newt
+        orphan == {t \in allt : t.fd \in removed}
+    IN /\ bk' = a.bk
+       /\ fdc' = [f \in Fds |-> IF f \in removed THEN 0 ELSE a.fdc[f]]
+       /\ tok' = allt \ orphan
+       /\ (orphan # {}) => PrintT("MISMATCH " \o ToJson([l |-> l, hist |-> hist, step |-> nsteps, kind |-> "own:removed-with-requests-in-flight",
+                                                         detail |-> [removed |-> removed, tokens |-> orphan]]))
+
 TPoll ==
-    /\ Ev("poll") /\ Common /\ RxSame
+    /\ Ev("poll") /\ Common /\ UNCHANGED <<rx, supplied>>
+    /\ IF Rec[l].called /\ Rec[l].res # "panic" THEN AbsPoll(Rec[l], IF Rec[l].res = "ok" THEN Rec[l].yielded ELSE <<>>) ELSE AbsSame
     /\ LET ev == Rec[l] IN
        IF dead THEN UNCHANGED <<S, dead, nbad>>
        ELSE IF ReadyBad(ev) # "" THEN Step(ev, "", S)
@@ -299,7 +338,8 @@ TPoll ==
 \* requests() called while nothing is ready, epoll_wait interrupted by a signal (EINTR): no event is
 \* handled, the sweep still runs, the call returns an empty list (PollEintr of MC_Server, bound here)
 TPollEintr ==
-    /\ Ev("poll_eintr") /\ Common /\ RxSame
+    /\ Ev("poll_eintr") /\ Common /\ UNCHANGED <<rx, supplied>>
+    /\ IF Rec[l].res # "panic" THEN AbsPoll(Rec[l], <<>>) ELSE AbsSame
     /\ LET ev == Rec[l] IN
        IF dead THEN UNCHANGED <<S, dead, nbad>>
        ELSE IF ReadyBad(ev) # "" THEN Step(ev, "", S)
